@@ -23,6 +23,8 @@ import (
 // OnConnectionStateChange sequence has nothing after the first closed; after GracefulClose returned on both peers no
 // goroutine running pion code is left (bounded settle); no GracefulClose call returns while an invocation of one of the
 // user's event handlers (any kind, see c21_handlers_test.go) is still in flight on a goroutine the connection started.
+// A second block of cases adds the history dimension "the application stopped some sub-objects itself before the
+// closers start" (c21_appops_test.go).
 
 type c21Rec struct {
 	mu   sync.Mutex
@@ -115,7 +117,8 @@ func TestVerifC21(t *testing.T) { //nolint:cyclop,gocognit,maintidx
 		"{Close, GracefulClose} on one or both peers (barrier start, seeded yields, handler goroutines descheduled at entry) followed by every mutating call; "+
 		"every event handler of the connection, its transports and its 1-3 data channels registered, a random subset of handler kinds slow (held from close start "+
 		"until a gate opens); transfer = RTP plus data-channel messages in a random direction set {a>b, b>a, both} with random sizes, close issued at once or when a "+
-		"message handler is busy; "+
+		"message handler is busy; second block of cases: before the closers start (slow handlers already held) the application itself issues a random set of "+
+		"operations on the sub-objects {DataChannel.Close, DataChannel.GracefulClose, RTPTransceiver.Stop, RTPSender.Stop, RemoveTrack, ReplaceTrack(nil)} of either peer; "+
 		"non-trivial = ≥2 closers or a close during ice/transfer; distinct by (point, closer mix, observed handler sequence)")
 	defer run.Finish()
 	sched := kit.NewSched(kit.Seed())
@@ -130,12 +133,23 @@ func TestVerifC21(t *testing.T) { //nolint:cyclop,gocognit,maintidx
 		point string
 		mix   []string
 		rep   int
+		pre   bool // history class: application-level operations on sub-objects before the closers start
 	}
 	var cases []cse
 	for rep := 0; rep < seedsPer; rep++ {
 		for _, p := range points {
 			for _, m := range mixes {
-				cases = append(cases, cse{p, m, rep})
+				cases = append(cases, cse{p, m, rep, false})
+			}
+		}
+	}
+	// second block (appended: the cases above keep their indices): same points and closer mixes, connected points
+	// weighted, with application-level operations on the sub-objects before the closers start
+	preSlots := []string{"before-sdp", "after-setlocal", "during-ice", "connected-idle", "connected-idle", "during-transfer", "during-transfer", "during-transfer"}
+	for rep := 0; rep < kit.N(1, 10); rep++ {
+		for slot, p := range preSlots {
+			for _, m := range mixes {
+				cases = append(cases, cse{p, m, rep + slot, true})
 			}
 		}
 	}
@@ -184,27 +198,58 @@ func TestVerifC21(t *testing.T) { //nolint:cyclop,gocognit,maintidx
 		a.OnConnectionStateChange(func(s PeerConnectionState) { recA.handler(s); hooksA.enter("pc.OnConnectionStateChange") })
 		b.OnConnectionStateChange(func(s PeerConnectionState) { recB.handler(s); hooksB.enter("pc.OnConnectionStateChange") })
 		var hookViolMu sync.Mutex
-		hookViol := map[string]string{} // signature -> first observation
+		hookViol := map[string]string{}   // signature -> first observation
+		hookStacks := map[string]string{} // signature -> stack of the held invocation when it entered the handler
+		appHistory := map[any]string{}    // sub-object -> operation the application issued on it before the closers started
 		judgeHooks := func(pc *PeerConnection, peer, phase string) {
-			for _, k := range hooksOf[pc].inflightKinds() {
+			for _, f := range hooksOf[pc].inflightNow() {
+				k := f.key
 				parts := strings.SplitN(k, ":", 2) // handler kind, function that started the goroutine
-				sig := "gracefulclose-returned-while-handler-running:" + k
-				if strings.HasPrefix(parts[1], "ice.") {
-					// The goroutine is one of the ICE agent's: whichever ICE handler it is running, the cause is the one
-					// the ICE-connection-state gate reports (the agent's goroutines were not waited for), so it gets that
-					// signature: what a GracefulClose can wait for depends on the setup point and on an earlier plain Close.
-					sig = "gracefulclose-returned-while-ice-handler-running:"
-					if strings.HasPrefix(phase, "after") {
-						sig += "after-close:"
+				histories := []string{""}
+				if f.worker {
+					// The handler was called from a loop of the connection (a read loop, the operations queue), not from a
+					// goroutine created for this one dispatch: whether GracefulClose waits for that loop can depend on what the
+					// application did to the loop's sub-object before — that history is part of the cause.
+					// One signature per operation class: each is a history after which the loop was not awaited ("" = the
+					// application had not touched the sub-object).
+					seen := map[string]bool{}
+					var hs []string
+					for _, o := range f.objs {
+						if h := appHistory[o]; !seen[h] {
+							seen[h] = true
+							hs = append(hs, h)
+						}
 					}
-					sig += c.point
+					sort.Strings(hs)
+					if len(hs) > 0 {
+						histories = hs
+					}
 				}
-				hookViolMu.Lock()
-				if _, ok := hookViol[sig]; !ok {
-					hookViol[sig] = fmt.Sprintf("peer %s, %s: an invocation of the %s handler had not returned; it runs on a goroutine the connection started in %s",
-						peer, phase, parts[0], parts[1])
+				for _, history := range histories {
+					sig := "gracefulclose-returned-while-handler-running:" + k
+					if strings.HasPrefix(parts[1], "ice.") {
+						// The goroutine is one of the ICE agent's: whichever ICE handler it is running, the cause is the one
+						// the ICE-connection-state gate reports (the agent's goroutines were not waited for), so it gets that
+						// signature: what a GracefulClose can wait for depends on the setup point and on an earlier plain Close.
+						sig = "gracefulclose-returned-while-ice-handler-running:"
+						if strings.HasPrefix(phase, "after") {
+							sig += "after-close:"
+						}
+						sig += c.point
+					} else if history != "" {
+						sig += ":after-app-" + history
+					}
+					hookViolMu.Lock()
+					if _, ok := hookViol[sig]; !ok {
+						hookViol[sig] = fmt.Sprintf("peer %s, %s: an invocation of the %s handler had not returned; it runs on a goroutine the connection started in %s",
+							peer, phase, parts[0], parts[1])
+						if history != "" {
+							hookViol[sig] += "; before the closers started the application had called " + history + " on the handler's data channel"
+						}
+						hookStacks[sig] = firstN(f.stack, 3000)
+					}
+					hookViolMu.Unlock()
 				}
-				hookViolMu.Unlock()
 			}
 		}
 		peerName := map[*PeerConnection]string{a: "a", b: "b"}
@@ -342,6 +387,75 @@ func TestVerifC21(t *testing.T) { //nolint:cyclop,gocognit,maintidx
 
 			continue
 		}
+		waitMessageHandlerBusy := func() {
+			// schedule class "the read loop is inside the user's message handler when the close is issued"
+			want := func(h *c21Hooks, receives bool) bool { return receives && h.gated["dc.OnMessage"] }
+			wA, wB := want(hooksA, direction != "a>b"), want(hooksB, direction != "b>a")
+			for deadline := time.Now().Add(200 * time.Millisecond); (wA || wB) && time.Now().Before(deadline); {
+				if (wA && hooksA.busy("dc.OnMessage")) || (wB && hooksB.busy("dc.OnMessage")) {
+					run.Count("closes_issued_while_message_handler_busy", 1)
+
+					break
+				}
+				time.Sleep(100 * time.Microsecond)
+			}
+		}
+		// history class: the application stops some sub-objects itself, the slow handlers are already being held
+		var appOps []c21AppOp
+		var appWaiters sync.WaitGroup
+		var appOpNames []string
+		if c.pre {
+			pr := kit.NewRand(kit.Seed(), 1<<41+uint64(i))
+			hooksA.closing.Store(true)
+			hooksB.closing.Store(true)
+			if c.point == "during-transfer" && waitBusy {
+				waitMessageHandlerBusy()
+			} else {
+				time.Sleep(time.Duration(pr.Intn(3000)) * time.Microsecond)
+			}
+			appOps = c21DrawAppOps(pr, map[string]*PeerConnection{"a": a, "b": b}, map[string]*c21Hooks{"a": hooksA, "b": hooksB}, sender)
+			var kinds []string
+			for _, op := range appOps {
+				appHistory[op.obj] = op.kind
+				appOpNames = append(appOpNames, op.name)
+				kinds = append(kinds, op.kind)
+				run.Count("app_ops_before_close:"+op.kind, 1)
+				if d, ok := op.obj.(*DataChannel); ok && (hooksA.busyOn("dc.OnMessage", d) || hooksB.busyOn("dc.OnMessage", d)) {
+					run.Count("app_ops_on_channel_whose_read_loop_was_inside_the_message_handler", 1)
+				}
+			}
+			issued := make(chan struct{})
+			go func() {
+				defer close(issued)
+				for _, op := range appOps {
+					if op.waits {
+						appWaiters.Add(1)
+						go func(op c21AppOp) { defer appWaiters.Done(); op.do() }(op)
+						time.Sleep(time.Duration(pr.Intn(500)) * time.Microsecond)
+
+						continue
+					}
+					op.do()
+				}
+			}()
+			select {
+			case <-issued:
+			case <-time.After(wd):
+				run.Inconclusive("app-op-did-not-return:" + label)
+				close(stopTransfer)
+				close(hooksA.open)
+				close(hooksB.open)
+				go func() { _ = a.Close(); _ = b.Close() }()
+
+				continue
+			}
+			time.Sleep(time.Duration(pr.Intn(2000)) * time.Microsecond)
+			sort.Strings(kinds)
+			label += "|app:" + strings.Join(kinds, ",")
+			if len(appOps) > 0 {
+				run.Count("cases_with_app_ops_before_close", 1)
+			}
+		}
 		// closers: barrier start; even indices hit peer a, odd ones peer b when the mix has more than two closers
 		sched.Perturb(0.4)
 		start := make(chan struct{})
@@ -373,18 +487,8 @@ func TestVerifC21(t *testing.T) { //nolint:cyclop,gocognit,maintidx
 		gateB.closing.Store(true)
 		hooksA.closing.Store(true)
 		hooksB.closing.Store(true)
-		if c.point == "during-transfer" && waitBusy {
-			// schedule class "the read loop is inside the user's message handler when the close is issued"
-			want := func(h *c21Hooks, receives bool) bool { return receives && h.gated["dc.OnMessage"] }
-			wA, wB := want(hooksA, direction != "a>b"), want(hooksB, direction != "b>a")
-			for deadline := time.Now().Add(200 * time.Millisecond); (wA || wB) && time.Now().Before(deadline); {
-				if (wA && hooksA.busy("dc.OnMessage")) || (wB && hooksB.busy("dc.OnMessage")) {
-					run.Count("closes_issued_while_message_handler_busy", 1)
-
-					break
-				}
-				time.Sleep(100 * time.Microsecond)
-			}
+		if c.point == "during-transfer" && waitBusy && !c.pre {
+			waitMessageHandlerBusy()
 		}
 		gatesOpen := make(chan struct{})
 		holdFor := time.Duration(30+hr.Intn(40)) * time.Millisecond
@@ -416,7 +520,8 @@ func TestVerifC21(t *testing.T) { //nolint:cyclop,gocognit,maintidx
 		close(stopTransfer)
 		transfer.Wait()
 		detail := map[string]any{"case": label, "rep": c.rep, "slow_handlers_a": gatedDesc["a"], "slow_handlers_b": gatedDesc["b"],
-			"channels": nChannels, "direction": direction, "max_msg": maxMsg, "close_when_busy": waitBusy, "hold_ms": holdFor.Milliseconds()}
+			"channels": nChannels, "direction": direction, "max_msg": maxMsg, "close_when_busy": waitBusy, "hold_ms": holdFor.Milliseconds(),
+			"app_ops_before_close": appOpNames}
 		viol := func(sig, what string) { run.Violation(sig, label+": "+what, i, detail) }
 
 		if n := gateViol.Load(); n > 0 {
@@ -480,10 +585,23 @@ func TestVerifC21(t *testing.T) { //nolint:cyclop,gocognit,maintidx
 		}
 		sort.Strings(hookSigs)
 		for _, k := range hookSigs {
+			detail["handler_stack:"+k] = hookStacks[k]
 			viol(k, "a GracefulClose call returned while a goroutine started by the connection was still running the user's event handler ("+hookViol[k]+")")
 		}
 		hookViolMu.Unlock()
 		<-gatesOpen // every held handler has been let go: the recorded sequences below are complete after the settle
+		if c.pre {
+			// the application's own waiting operations (DataChannel.GracefulClose) end with the connection at the latest
+			joined := make(chan struct{})
+			go func() { appWaiters.Wait(); close(joined) }()
+			select {
+			case <-joined:
+			case <-time.After(wd):
+				run.Inconclusive("app-op-did-not-return-after-close:" + label)
+
+				continue
+			}
+		}
 		for _, h := range []*c21Hooks{hooksA, hooksB} {
 			h.mu.Lock()
 			for k, n := range h.blocked {
@@ -554,7 +672,7 @@ func TestVerifC21(t *testing.T) { //nolint:cyclop,gocognit,maintidx
 		run.Seen("close_points", c.point)
 		run.Count("closers", len(c.mix))
 		if i%17 == 0 {
-			run.Sample(map[string]any{"case": label, "handler_a": fmt.Sprint(recA.snapshot()), "handler_b": fmt.Sprint(recB.snapshot())})
+			run.Sample(map[string]any{"case": label, "handler_a": fmt.Sprint(recA.snapshot()), "handler_b": fmt.Sprint(recB.snapshot()), "app_ops_before_close": appOpNames})
 		}
 	}
 	run.Set("hook_passes", sched.AllPasses())
